@@ -1,5 +1,6 @@
 CONSTANTS
   Grace = 300
+  MaxAge = 604800
 INIT Init
 NEXT Next
 INVARIANT Judge
